@@ -3,16 +3,24 @@ C02 — Every time format represents the same instant and survives a round trip.
 
 Property theorems only (exact over `Rat`/`Int`; floating-point error is measured by
 harness/c02.py).  `inst j = jd1 + jd2`.
+
+The six text formats are theorems about the `List Char` functions of `Model/TimeText.lean` that the
+driver executes against CPython (`text_parse_render`, `isot_roundtrip`, `yds_roundtrip`,
+`date_roundtrip`, `text_roundtrip`, `isot_short_year`; lemmas in `Proofs/TimeText.lean`, digit-level core
+in `Proofs/Digits.lean`).
 -/
-import Midgard.Model.TimeFormat
+import Midgard.Model.TimeText
 import Midgard.Generated.TimeScaleTables
 import Midgard.Proofs.Calendar
+import Midgard.Proofs.TimeText
 import Mathlib.Tactic.Linarith
 import Mathlib.Tactic.FieldSimp
 import Mathlib.Tactic.Ring
 import Mathlib.Algebra.Order.Field.Rat
 import Mathlib.Algebra.Order.Floor.Ring
 import Mathlib.Data.Rat.Floor
+import Midgard.Generated.SourceExprsTime
+import Mathlib.Tactic.NormNum
 
 set_option linter.unusedSimpArgs false
 
@@ -310,6 +318,79 @@ theorem fields_range (dt : Int) :
   have s1 : secs < 86400 := by omega
   refine ⟨by omega, by omega, by omega, by omega, by omega, by omega, by omega, by omega⟩
 
+/-! ### Text formats: `strptime (strftime t) = t` on `List Char`, for every epoch of the format's domain -/
+
+/-- The epochs a text pattern can carry through `strftime` → `strptime`: the four-digit-year patterns
+need a year that *prints* with four digits (glibc's `%Y` does not pad: 1000 … 9999), the two-digit-year
+form can only denote 1969 … 2068 (`%y` pivot). -/
+def InDomain (f : TextFmt) (dt : DateTime) : Prop :=
+  match f with
+  | .yyddd => 1969 ≤ (fieldsOf dt).year ∧ (fieldsOf dt).year ≤ 2068
+  | _ => 1000 ≤ (fieldsOf dt).year ∧ (fieldsOf dt).year ≤ 9999
+
+/-- **Parsing what was rendered returns the datetime truncated to the printed resolution**, for all six
+text formats and every datetime of the format's domain (digits ↔ numbers by induction on the digits,
+the civil date by the calendar bijection for all dates, `_str2dt`'s fraction normalisation through the
+exact `float`/`format` model). -/
+theorem text_parse_render (f : TextFmt) (dt : DateTime) (h : InDomain f dt) :
+    parse? f (render f dt) = some (truncTo f dt) := by
+  cases f <;> simp only [InDomain] at h <;> simp only [truncTo]
+  · exact parse_render_isot dt h
+  · exact parse_render_iso dt h
+  · exact parse_render_yday dt h
+  · exact parse_render_date dt h
+  · exact parse_render_yyddd dt h
+  · exact parse_render_yyyyddd dt h
+
+/-- `isot` (and `iso`, `yday`): the text carries the datetime exactly — the instant of the Time built from
+the parsed text is the instant of the Time built from the datetime -/
+theorem isot_roundtrip (f : TextFmt) (hf : f = .isot ∨ f = .iso ∨ f = .yday) (dt : DateTime) (h : InDomain f dt) :
+    ∃ j', textToJds f (render f dt) = some j' ∧ j'.inst = (dtToJds dt).inst := by
+  refine ⟨dtToJds dt, ?_, rfl⟩
+  unfold textToJds
+  rw [text_parse_render f dt h]
+  rcases hf with rfl | rfl | rfl <;> rfl
+
+/-- `yy:ddd:sssss` / `yyyy:ddd:sssss`: the parsed text is the start of the printed second — less than one
+second before the datetime, never after -/
+theorem yds_roundtrip (f : TextFmt) (hf : f = .yyddd ∨ f = .yyyyddd) (dt : DateTime) (h : InDomain f dt) :
+    ∃ j', textToJds f (render f dt) = some j' ∧
+      0 ≤ (dtToJds dt).inst - j'.inst ∧ (dtToJds dt).inst - j'.inst < 1 / 86400 := by
+  refine ⟨dtToJds (truncTo f dt), ?_, ?_⟩
+  · unfold textToJds; rw [text_parse_render f dt h]; rfl
+  · have := trunc_error f dt
+    rcases hf with rfl | rfl <;> exact this
+
+/-- `date`: the parsed text is midnight of the printed day — less than one day before the datetime -/
+theorem date_roundtrip (dt : DateTime) (h : InDomain .date dt) :
+    ∃ j', textToJds .date (render .date dt) = some j' ∧
+      0 ≤ (dtToJds dt).inst - j'.inst ∧ (dtToJds dt).inst - j'.inst < 1 := by
+  refine ⟨dtToJds (truncTo .date dt), ?_, trunc_error .date dt⟩
+  unfold textToJds; rw [text_parse_render .date dt h]; rfl
+
+/-- resolution of a text pattern in days -/
+def textRes : TextFmt → Rat
+  | .isot | .iso | .yday => 0
+  | .date => 1
+  | .yyddd | .yyyyddd => 1 / 86400
+
+/-- **Round trip through the text of any Time**: reading a text format from `(jd1, jd2)` and constructing
+again moves the instant by at most the pattern's resolution plus the 1 µs of the datetime rounding. -/
+theorem text_roundtrip (f : TextFmt) (j : JD) (h : InDomain f (dtFromJds j)) :
+    ∃ j', textToJds f (textFromJds f j) = some j' ∧ |j'.inst - j.inst| ≤ textRes f + 1 / (usPerDay : Rat) := by
+  refine ⟨dtToJds (truncTo f (dtFromJds j)), ?_, ?_⟩
+  · unfold textToJds textFromJds; rw [text_parse_render f _ h]; rfl
+  · have a := dt_roundtrip j
+    have b := trunc_error f (dtFromJds j)
+    rw [abs_le] at a ⊢
+    have hU : (0 : Rat) < 1 / (usPerDay : Rat) := by norm_num [usPerDay]
+    cases f <;> simp only [textRes, truncTo] at b ⊢ <;> constructor <;> linarith [a.1, a.2, b.1, b.2]
+
+/-- the domain is sharp at its lower end: below year 1000 glibc prints the year with fewer than four
+digits and `strptime`'s `%Y` refuses the text (midgard then raises `ValueError`) -/
+theorem isot_short_year (dt : DateTime) (h : (fieldsOf dt).year < 1000) : parse? .isot (render .isot dt) = none :=
+  parse_render_isot_short_year dt h
+
 /-! ### Constants of the format classes -/
 
 theorem constants : jd2000dt = 2451544 + 1 / 2 ∧ mjd0 = 2400000 + 1 / 2 ∧ jdGps0 = 2444244 + 1 / 2 ∧
@@ -321,9 +402,80 @@ theorem constants : jd2000dt = 2451544 + 1 / 2 ∧ mjd0 = 2400000 + 1 / 2 ∧ jd
 example : civilFromDays 0 = (2000, 1, 1) ∧ civilFromDays 59 = (2000, 2, 29) ∧ civilFromDays (-36524) = (1900, 1, 1)
     ∧ daysFromCivil 2100 1 1 = 36525 := by decide +kernel
 example : wsFromJds ⟨2451544 + 1 / 2, 1 / 4⟩ = some ⟨1042, 540000, 6⟩ := by decide +kernel
--- (`render`/`parse?` work on `String`, which the kernel does not evaluate: they are exercised by the
--- correspondence run against CPython's strftime/strptime, not by `decide`.)
 example : dtFromJds ⟨2451544 + 1 / 2, 1 / 3⟩ = 28800000000 := by decide +kernel
+-- the domains are inhabited: 2000-01-01 (dt = 0), 1000-01-01 and 9999-12-31 23:59:59.999999
+example : InDomain .isot 0 ∧ InDomain .yyddd 0 ∧ InDomain .date (-31556908800000000) ∧
+    InDomain .yyyyddd 252455615999999999 ∧ ¬ InDomain .isot (-31556908800000001) := by
+  simp only [InDomain]; decide +kernel
+-- the text functions run in the kernel (they are `List Char` functions): spot checks of the model itself
+example : render .isot 0 = "2000-01-01T00:00:00.000000".toList ∧
+    render .date (-31583088000000000) = "999-03-04".toList ∧
+    parse? .yyddd "99:365:86399".toList = some (-1000000) ∧
+    parse? .isot "2000-02-30T00:00:00".toList = none ∧
+    parse? .iso "2000-01-01  12:00:00.5".toList = some 43200500000 ∧
+    parse? .yyyyddd "2001:366:00000".toList = some 63158400000000 ∧
+    parse? .date "999-03-04".toList = none := by decide +kernel
+
+
+/-! ### The model is the source (regenerated on every run)
+
+`Generated/SourceExprsTime.lean` is written by `translator/extract_exprs.py` from the Python `ast` of `_time.py` in the
+tree under test: `_to_jds` / `_from_jds` of the numeric formats jd, mjd, gps_ws, gps_seconds, jyear (guards resolved to
+the accepting branch) and `_jd_delta` / `jd_int` / `jd_frac`, statement by statement.  The theorems of this section say
+that the model definitions the other theorems of this file are about are *equal* (over ℚ) to those regenerated
+definitions, with the unit factors the code reads from `Unit` given their defining values.  Hand-modelled and tied by
+the correspondence only: datetime / decimalyear / the text formats (CPython's datetime, strftime/strptime), the
+input-shape dispatch of `TimeGPSWeekSec._to_jds`, and the guards that raise. -/
+section Source
+open Midgard.Generated
+set_option linter.unusedTactic false
+set_option linter.unreachableTactic false
+set_option linter.unnecessarySeqFocus false
+set_option linter.unusedSimpArgs false
+
+open Lean.Parser.Tactic in
+macro "src_tie_t" "[" ds:simpLemma,* "]" : tactic =>
+  `(tactic| first
+    | rfl
+    | (simp only [$ds,*, SrcTime.HasFloor.floor, Prod.mk.injEq, JD.mk.injEq, WeekSec.mk.injEq, Option.some.injEq]
+       <;> (repeat' constructor)
+       <;> ((try norm_num1) <;> (first | rfl | ring_nf))))
+
+/-- jd and mjd: `_to_jds` / `_from_jds` -/
+theorem source_jd_mjd (v v2 : Rat) (j : JD) :
+    (let r := jdToJds v v2; SrcTime.jdToJdsSrc v v2 = (r.jd1, r.jd2)) ∧
+    SrcTime.jdFromJdsSrc j.jd1 j.jd2 = jdFromJds j ∧
+    (let r := mjdToJds v v2; SrcTime.mjdToJdsSrc v v2 mjd0 = (r.jd1, r.jd2)) ∧
+    SrcTime.mjdFromJdsSrc j.jd1 j.jd2 mjd0 = mjdFromJds j := by
+  refine ⟨?_, ?_, ?_, ?_⟩ <;>
+    src_tie_t [jdToJds, jdFromJds, mjdToJds, mjdFromJds, SrcTime.jdToJdsSrc, SrcTime.jdFromJdsSrc, SrcTime.mjdToJdsSrc, SrcTime.mjdFromJdsSrc]
+
+/-- `jd_int`, `jd_frac` and the helper they share -/
+theorem source_jd_int_frac (j : JD) :
+    SrcTime.jdDeltaSrc j.jd1 j.jd2 = jdDelta j ∧
+    SrcTime.jdIntSrc j.jd1 (SrcTime.jdDeltaSrc j.jd1 j.jd2) = jdInt j ∧
+    SrcTime.jdFracSrc j.jd2 (SrcTime.jdDeltaSrc j.jd1 j.jd2) = jdFrac j := by
+  refine ⟨?_, ?_, ?_⟩ <;> src_tie_t [jdDelta, jdInt, jdFrac, SrcTime.jdDeltaSrc, SrcTime.jdIntSrc, SrcTime.jdFracSrc]
+
+/-- GPS week/seconds and GPS seconds (day2seconds = 86400, week2days = 7, second2day = 1/86400), on and after 1980-01-06 -/
+theorem source_gps_formats (week sec v : Rat) (j : JD) (h : ¬ j.jd1 + j.jd2 < jdGps0) :
+    (let r := wsToJds week sec; SrcTime.wsToJdsSrc week sec 86400 7 jdGps0 = (r.jd1, r.jd2)) ∧
+    (wsFromJds j = (let t := SrcTime.wsFromJdsSrc j.jd1 j.jd2 86400 7 jdGps0; some ⟨t.1, t.2.1, t.2.2⟩)) ∧
+    (let r := gsToJds v; SrcTime.gsToJdsSrc v (1 / 86400) jdGps0 = (r.jd1, r.jd2)) ∧
+    gsFromJds j = some (SrcTime.gsFromJdsSrc j.jd1 j.jd2 86400 jdGps0) := by
+  refine ⟨?_, ?_, ?_, ?_⟩
+  · src_tie_t [wsToJds, SrcTime.wsToJdsSrc]
+  · simp only [wsFromJds, h, if_false]; src_tie_t [SrcTime.wsFromJdsSrc]
+  · src_tie_t [gsToJds, SrcTime.gsToJdsSrc]
+  · simp only [gsFromJds, h, if_false]; src_tie_t [SrcTime.gsFromJdsSrc]
+
+/-- Julian year (julian_year2day = 365.25, day2julian_year = 1/365.25) -/
+theorem source_jyear (v : Rat) (j : JD) :
+    (let r := jyToJds v; SrcTime.jyToJdsSrc v 2000 jd2000noon julianYear = (r.jd1, r.jd2)) ∧
+    SrcTime.jyFromJdsSrc j.jd1 j.jd2 2000 jd2000noon (1 / julianYear) = jyFromJds j := by
+  refine ⟨?_, ?_⟩ <;> src_tie_t [jyToJds, jyFromJds, SrcTime.jyToJdsSrc, SrcTime.jyFromJdsSrc, julianYear]
+
+end Source
 
 end Midgard.Props.C02
 
@@ -357,4 +509,14 @@ end Midgard.Props.C02
 #print axioms Midgard.Props.C02.calendar_roundtrip
 #print axioms Midgard.Props.C02.fields_roundtrip
 #print axioms Midgard.Props.C02.fields_range
+#print axioms Midgard.Props.C02.text_parse_render
+#print axioms Midgard.Props.C02.isot_roundtrip
+#print axioms Midgard.Props.C02.yds_roundtrip
+#print axioms Midgard.Props.C02.date_roundtrip
+#print axioms Midgard.Props.C02.text_roundtrip
+#print axioms Midgard.Props.C02.isot_short_year
 #print axioms Midgard.Props.C02.constants
+#print axioms Midgard.Props.C02.source_jd_mjd
+#print axioms Midgard.Props.C02.source_jd_int_frac
+#print axioms Midgard.Props.C02.source_gps_formats
+#print axioms Midgard.Props.C02.source_jyear
